@@ -53,6 +53,8 @@ THEOREMS = [
     "Nix.C11.C11_default_decision",
     "Nix.C11.C11_changes_only",
     "Nix.C11.C11_h5_layer_passes_write_errors_on",
+    "Nix.C11.C11_step_changes_only",
+    "Nix.C11.C11_history_changes_only",
 ]
 ASSUMPTIONS = [
     "nixio has no write guard of its own: that libhdf5 refuses every write through a handle opened ACC_RDONLY is "
